@@ -846,10 +846,48 @@ def skip_rule(rep, ctx, sfx):
         return names
     programs = dis = 0
     samples = []
-    if gscr is None or vscr is None or scr_order(gscr, gfn) != scr_order(vscr, vfn):
+    if va and (gscr is None or vscr is None or scr_order(gscr, gfn) != scr_order(vscr, vfn)):
         r.violation("flag-order", where(vfn["body"]), "the (WHITESPACE, COMMENT) flag tuples are built in different "
                     "orders (%s vs %s)" % (scr_order(gscr, gfn) if gscr else None, scr_order(vscr, vfn) if vscr else None))
     gmac = [m for m in ctx.macros[GENFILE] if m["macro"] == "generate_rule" and m["fn"] == "generate_skip"]
+    evaluated = {}
+    if not va and ga and gscr is not None and scr_order(gscr, gfn) != ["WHITESPACE", "COMMENT"]:
+        r.violation("flag-order", where(gfn["body"]), "generate_skip builds its flag tuple as %s" % scr_order(gscr, gfn))
+    if not va and ga:
+        # Vm::skip written without the tuple match (guard clauses, flags in locals): evaluate its body for each
+        # combination of the two flags, once in non-atomic and once in atomic mode
+        hf0 = HirFront(vfn, {}, rec_callees=[], skip_callees=[], rule_callees=[VM + "::parse_rule"])
+        for flags in ga:
+            tn = vm_skip_eval(vfn, hf0, flags[0], flags[1], True)
+            ta = vm_skip_eval(vfn, hf0, flags[0], flags[1], False)
+            if tn is not None and ta is not None:
+                evaluated[flags] = (norm(tn), norm(ta))
+        if len(evaluated) == len(ga) and not hf0.problems:
+            for flags in sorted(ga, key=str):
+                programs += 1
+                key = "ws=%s,comment=%s" % flags
+                arm = ga[flags]
+                lo, hi = arm_start_line(arm), arm_end_line(arm)
+                ms = [m for m in gmac if lo <= m["line"] <= hi]
+                if len(ms) != 1 or len(ms[0].get("args", [])) != 2:
+                    r.violation(key + ":template", where(arm["body"]), "generate_rule!(skip, ..) invocation not found for this case")
+                    continue
+                fr = TemplateFront({})
+                gt = simp_if(norm(fr.term(ms[0]["args"][1])))
+                tn, ta = evaluated[flags]
+                # the generated case is `if NonAtomic { T } else { Ok }` (or plain Ok): compare both modes
+                if isinstance(gt, tuple) and gt and gt[0] == "if":
+                    g_non, g_at = simp_if(gt[2]), simp_if(gt[3])
+                else:
+                    g_non = g_at = gt
+                r.instance(key, where(vfn["body"]), show(tn))
+                if fr.problems:
+                    r.violation(key + ":shape", where(vfn["body"]), "skip case not understood (%s)" % fr.problems)
+                elif simp_if(tn) != g_non or simp_if(ta) != g_at:
+                    dis += 1
+                    r.violation(key, where(vfn["body"]), "skip case %s: generated `%s`, VM `%s` (non-atomic) / `%s` (atomic)"
+                                % (key, show(gt), show(tn), show(ta)))
+            return programs, dis, samples
     for flags in sorted(set(ga) | set(va), key=str):
         programs += 1
         key = "ws=%s,comment=%s" % flags
@@ -878,6 +916,106 @@ def skip_rule(rep, ctx, sfx):
             dis += 1
             r.violation(key, where(va[flags]["body"]), "skip case %s: generated `%s`, VM `%s`" % (key, show(gt), show(vt)))
     return programs, dis, samples
+
+
+def vm_skip_eval(fn, hf, ws, comment, nonatomic):
+    """The term Vm::skip evaluates to when the grammar has / has not WHITESPACE and COMMENT, in non-atomic or atomic
+    mode: conditions over `contains_key("WHITESPACE" / "COMMENT")` and `atomicity() == NonAtomic` are decided, early
+    `return`s taken.  None if the body cannot be followed."""
+    env = {}
+
+    def evalb(e):
+        e = peel(e)
+        k = kind(e)
+        if k == "Lit" and isinstance(e.get("v"), bool):
+            return e["v"]
+        if k == "Path" and e.get("res") == "local":
+            return env.get(e["id"])
+        if k == "Unary" and e["op"] == "!":
+            v = evalb(e["e"])
+            return None if v is None else (not v)
+        if k == "Binary" and e["op"] in ("&&", "||"):
+            a, b = evalb(e["l"]), evalb(e["r"])
+            if e["op"] == "&&":
+                if a is False or b is False:
+                    return False
+                return True if (a is True and b is True) else None
+            if a is True or b is True:
+                return True
+            return False if (a is False and b is False) else None
+        if k == "MethodCall" and e["m"] == "contains_key" and e["args"]:
+            lits = [x.get("v") for x in walk(e["args"][0]) if kind(x) == "Lit" and x.get("lk") == "str"]
+            if lits == ["WHITESPACE"]:
+                return ws
+            if lits == ["COMMENT"]:
+                return comment
+            return None
+        if k == "Binary" and e["op"] in ("==", "!="):
+            sides = [peel(e["l"]), peel(e["r"])]
+            atom = [s for s in sides if kind(s) == "Path" and str(s.get("path", "")).endswith("Atomicity::NonAtomic")]
+            call = [s for s in sides if kind(s) == "MethodCall" and s["m"] == "atomicity"]
+            if atom and call:
+                return nonatomic if e["op"] == "==" else (not nonatomic)
+            atom2 = [s for s in sides if kind(s) == "Path" and str(s.get("path", "")).endswith("Atomicity::Atomic")]
+            if atom2 and call:
+                return (not nonatomic) if e["op"] == "==" else nonatomic
+        if k == "MethodCall" and e.get("path") in ("core::cmp::PartialEq::eq", "core::cmp::PartialEq::ne") and e["args"]:
+            a0 = peel(e["args"][0])
+            if kind(peel(e["recv"])) == "MethodCall" and peel(e["recv"])["m"] == "atomicity" and kind(a0) == "Path":
+                is_non = str(a0.get("path", "")).endswith("Atomicity::NonAtomic")
+                v = nonatomic if is_non else (not nonatomic)
+                return v if e["path"].endswith("::eq") else (not v)
+        return None
+
+    def value(e):
+        e0 = peel(e)
+        k = kind(e0)
+        if k == "If":
+            c = evalb(e0["cond"])
+            if c is None:
+                return None
+            br = e0["then"] if c else e0.get("else")
+            return value(br) if br is not None else None
+        if k == "Block":
+            return block(e0)
+        if k == "Match" and kind(peel(e0["scrut"])) == "Tup":
+            vals = tuple(evalb(x) for x in peel(e0["scrut"])["elems"])
+            if None in vals:
+                return None
+            for arm in e0["arms"]:
+                p = arm["pat"]
+                if p.get("k") == "PTuple" and tuple(q.get("v") for q in p["pats"] if q.get("k") == "PLit") == vals:
+                    return value(arm["body"])
+                if hirq.pat_is_catchall(p):
+                    return value(arm["body"])
+            return None
+        if k == "Ret":
+            return value(e0["e"]) if e0.get("e") is not None else None
+        return hf.term(e0)
+
+    def block(b):
+        for st in b.get("stmts", []):
+            sk = st.get("k")
+            if sk == "Let":
+                if st.get("init") is not None and st["pat"].get("k") == "PBind":
+                    env[st["pat"]["id"]] = evalb(st["init"])
+                continue
+            if sk in ("Expr", "Semi"):
+                e = peel(st["e"])
+                if kind(e) == "If":
+                    c = evalb(e["cond"])
+                    if c is None:
+                        return None
+                    br = e["then"] if c else e.get("else")
+                    if br is not None and hirq.diverges(br):
+                        rets = [x for x in walk(br) if kind(x) == "Ret"]
+                        return value(rets[0]) if len(rets) == 1 else None
+                    continue
+                if kind(e) == "Ret":
+                    return value(e)
+                return None
+        return value(b["expr"]) if b.get("expr") is not None else None
+    return block(fn["body"]) if kind(fn["body"]) == "Block" else None
 
 
 def simp_if(t):
